@@ -49,6 +49,21 @@ CHECKS = {
                  'future.Apply/Apply2: C06.',
         assumptions=['panic values are compared by their canonical rendering', 'debug.Stack() content of try.panicError is not modelled'],
     ),
+    'C04': dict(
+        spec=['FpVerif.Spec.C04Seq', 'FpVerif.Spec.C04Facts'],
+        facts=facts_factx,
+        harnesses=[H('seqheap', 'oracle_seqheap', 3000, 150000)],
+        level='proof',
+        level_note='trusted: Lean kernel (propext/Classical.choice/Quot.sound only); model fidelity checked by correspondence (alias class = which backing '
+                   'array and offset, and contents, of every result; plus the direct check that no backing array ever seen changes over its full capacity). '
+                   'PARTIAL: this check covers fp.Seq / package seq at backing-array level and the value-receiver facts for Option/Try/tuples/Seq; '
+                   'persistence of the immutable Map/Set (HAMT node sharing, builders) is covered by the C03 machinery.',
+        modelled='seq.go (Widen, Init, Tail, Take, Drop, Filter, FilterNot, Map, Add, Append, Concat, Reverse), seq/seq_op.go (Sort, Distinct, Scan, Span, '
+                 'Partition, Map, Flatten, Collect; Fold/FoldTry/Reduce/Min/Max/GroupBy/Zip/ZipWithIndex/ToGoSet and iterator.Sort/ToSeq as non-writing calls); '
+                 'facts: receiver kinds of all methods of Option, Try, TupleN, LabelledN, Seq.',
+        assumptions=['Go slices: a write through one slice is visible through every slice sharing its backing array; append growth policy is not modelled '
+                     '(fresh arrays are compared by identity and contents, not capacity)'],
+    ),
     'C06': dict(
         spec=['FpVerif.Spec.C06', 'FpVerif.Spec.C06Sound'],
         harnesses=[H('future', 'oracle_future', 3000, 150000, spec_level=True)],
@@ -91,6 +106,74 @@ CHECKS = {
                      'user callbacks are arbitrary GoM computations (may log and panic)'],
     ),
 }
+
+def _only(classes):
+    return dict(quick=['-only', classes], thorough=['-only', classes])
+
+CHECKS_TC = {
+    'C09': dict(
+        spec=['FpVerif.Spec.C09'],
+        harnesses=[H('tc', 'oracle_tc', 3000, 300000, extra=_only('eq,hash'))],
+        level='proof',
+        modelled='typeclass.go (Eq, EqFunc, EqGiven, Hashable); eq/eq_op.go (New, Time, Bytes, Tuple1, Option, Seq, Slice, '
+                 'HNil, HCons, Given, Ptr, PtrGiven, ContraMap, String, GoMap, FpMap) + eq/tuple_gen.go (Tuple2..21 as the '
+                 'recursion head × Tuple(N-1)); hash/hash_op.go (hashUint64, New, Number, String, Bytes, Tuple1, HNil, HCons, '
+                 'Seq, Slice, Ptr, Option, ContraMap) + hash/tuple_gen.go. Not modelled: the predicate helpers of eq_op.go '
+                 '(GivenValue, NotNilAnd, …: not Eq instances), float keys (excluded by the property).',
+        assumptions=['Go `int` is Int64 in the oracle; theorems hold for every carrier with decidable equality',
+                     'a Go map / fp.Map is an association list with distinct keys (fp.Map = mathematical map is C03)',
+                     'time.Time is (instant, location); Equal/Compare look at the instant only',
+                     'ContraMap functions are pure (the theorems quantify over all functions)'],
+    ),
+    'C10': dict(
+        spec=['FpVerif.Spec.C10'],
+        harnesses=[H('tc', 'oracle_tc', 3000, 200000, extra=_only('ord'))],
+        level='proof',
+        modelled='typeclass.go (Ord, CompareFunc, LessFunc with all derived methods, LessGiven); ord/ord_op.go (FromCompare, New, '
+                 'Time, Tuple1, Option, Seq, Slice, HNil, HCons, Given, GivenField, ContraMap, Ptr) + ord/tuple_gen.go; as.Ord; '
+                 'Sort/Min/Max of seq/seq_op.go, iterator/iterator_op.go, list/list_op.go.',
+        assumptions=['sort.Sort returns an ordered permutation when Less is a strict weak order (hypothesis SortSpec of the '
+                     'theorems, satisfiable: List.mergeSort); it is unstable, so the comparison canonicalises runs of Eqv elements',
+                     'Compare results are mathematical integers: a user comparison never returns math.MinInt (Reversed negates)',
+                     'user functions handed to as.Ord / ord.New / ord.FromCompare are strict weak orders / lawful three-way '
+                     'comparisons (hypotheses StrictWeak / CmpLawful of the theorems)',
+                     'iterators and lists handed to Sort/Min/Max are viewed as the finite list they yield',
+                     'that seq.Sort sorts its INPUT in place (r.Concat(nil) returns r) is a C04 matter: counted in the histogram '
+                     '(note:seq.Sort-mutated-its-input(C04)), a failure only with the harness flag -c04'],
+    ),
+    'C11': dict(
+        spec=['FpVerif.Spec.C11'],
+        harnesses=[H('tc', 'oracle_tc', 3000, 300000, extra=_only('mon,sg'))],
+        level='proof',
+        modelled='monoid.go (SemigroupFunc, Sum, Product, monoid); monoid/monoid_op.go (New, String, Sum, Product, Option, Try, '
+                 'MergeSeq, MergeSlice, HNil, HCons, Endo, Dual, Eval, Any, All, IMap, MergeMap, MergeSet, MergeGoMap, Ptr, Unit) '
+                 '+ monoid/tuple_gen.go; semigroup/semigroup.go (all); Reduce/FoldMap/Fold/FoldRight of seq, iterator, list. '
+                 'Not modelled: monoid.Future (not in the property).',
+        assumptions=['lazy.Eval is observed through Get (faithfulness of the trampoline is C16)',
+                     'pointers produced by monoid.Ptr / semigroup.Ptr are compared by target',
+                     'map monoids are lawful up to map content (iteration order is not part of the value)',
+                     'Try values are properly initialised (Success or Failure with a non-nil error)',
+                     'functions (Endo) are compared extensionally; in the harness on the domain [-2..3]'],
+    ),
+    'C18': dict(
+        spec=['FpVerif.Spec.C18'],
+        harnesses=[H('clone', 'oracle_clone', 4000, 400000)],
+        level='proof',
+        modelled='clone/clone.go (New, Ptr, Given, HNil, Seq, GoMap, Slice, Option, HCons, Tuple2, Generic) + clone/clone_gen.go '
+                 '(Tuple3..21) over an explicit heap of cells (pointer targets, slice backing arrays, Go maps).',
+        assumptions=['cells are allocated after their contents were cloned (Go allocates the container first); addresses are '
+                     'not observable and element cloners only allocate',
+                     'a slice is (array, length) with offset 0; TupleN/HCons are nested pairs; a struct and its fp.Generic '
+                     'representation are the same tuple (gen.To/gen.From move fields and do not allocate)',
+                     'Given is used at value types only (the property says so); map keys are pairwise distinct under ==',
+                     'the Go runtime implements pointers, slices and maps as the heap model says'],
+    ),
+}
+
+for _k, _v in CHECKS_TC.items():
+    for _h in _v['harnesses']:
+        _h['spec_level'] = True
+CHECKS.update(CHECKS_TC)
 
 HOOK_COMMITS = ['068ea8a']
 
